@@ -25,7 +25,7 @@ import (
 //	via-proxy, via-rewriting-proxy[-nocallback]  client - Proxy - Demux - Serve; "rewriting": the client dials a
 //	              name that the proxy's address-rewriting callback translates; "nocallback": no disconnect callback
 //
-// It is applied only to scenarios that pass no server / dial options of their own.
+// Feature kinds are added only on a side for which the scenario passes no options of its own.
 var Config string
 
 var ConfigKinds = []string{"stats", "stats2+interceptors", "chain+stats", "services", "serialize+interceptors", "stats2+chain+services+serialize", "demux", "via-proxy", "via-rewriting-proxy", "via-rewriting-proxy-nocallback+stats", "demux+stats2+chain"}
@@ -89,9 +89,9 @@ func decoyDesc(name string) *grpc.ServiceDesc {
 }
 
 func applyConfig(o DirectOpts, cfg string) (DirectOpts, []string) {
-	if len(o.ServerOpts) > 0 || len(o.DialOpts) > 0 {
-		return o, nil
-	}
+	// feature kinds only on a side for which the scenario passes no options of its own (it may
+	// count events or calls there); topology kinds always
+	ownServer, ownDial := len(o.ServerOpts) > 0, len(o.DialOpts) > 0
 	var services []string
 	for _, k := range strings.Split(cfg, "+") {
 		switch k {
@@ -101,15 +101,27 @@ func applyConfig(o DirectOpts, cfg string) (DirectOpts, []string) {
 				n = 2
 			}
 			for i := 0; i < n; i++ {
-				o.ServerOpts = append(o.ServerOpts, goat.StatsHandler(&passiveSH{i}))
-				o.DialOpts = append(o.DialOpts, goat.WithStatsHandler(&passiveSH{10 + i}))
+				if !ownServer {
+					o.ServerOpts = append(o.ServerOpts, goat.StatsHandler(&passiveSH{i}))
+				}
+				if !ownDial {
+					o.DialOpts = append(o.DialOpts, goat.WithStatsHandler(&passiveSH{10 + i}))
+				}
 			}
 		case "interceptors":
-			o.ServerOpts = append(o.ServerOpts, goat.UnaryInterceptor(passUnaryServer), goat.StreamInterceptor(passStreamServer))
-			o.DialOpts = append(o.DialOpts, goat.WithUnaryInterceptor(passUnaryClient), goat.WithStreamInterceptor(passStreamClient))
+			if !ownServer {
+				o.ServerOpts = append(o.ServerOpts, goat.UnaryInterceptor(passUnaryServer), goat.StreamInterceptor(passStreamServer))
+			}
+			if !ownDial {
+				o.DialOpts = append(o.DialOpts, goat.WithUnaryInterceptor(passUnaryClient), goat.WithStreamInterceptor(passStreamClient))
+			}
 		case "chain":
-			o.ServerOpts = append(o.ServerOpts, goat.ChainUnaryInterceptor(passUnaryServer, passUnaryServer), goat.ChainStreamInterceptor(passStreamServer, passStreamServer))
-			o.DialOpts = append(o.DialOpts, goat.WithUnaryInterceptor(passUnaryClient), goat.WithStreamInterceptor(passStreamClient))
+			if !ownServer {
+				o.ServerOpts = append(o.ServerOpts, goat.ChainUnaryInterceptor(passUnaryServer, passUnaryServer), goat.ChainStreamInterceptor(passStreamServer, passStreamServer))
+			}
+			if !ownDial {
+				o.DialOpts = append(o.DialOpts, goat.WithUnaryInterceptor(passUnaryClient), goat.WithStreamInterceptor(passStreamClient))
+			}
 		case "services":
 			services = []string{"verif.Sv", "verif.Svc0", "verif.Svc.Sub", "Svc", "verif"}
 		case "serialize":
